@@ -88,8 +88,8 @@ def polydist_class(cuqi):
     class PolyDist(Distribution):
         """integer-valued polynomial log-density of its mutable variables and x"""
 
-        def __init__(self, spec, names):
-            super().__init__(name=names[spec["name"]], geometry=spec["dim"])
+        def __init__(self, spec, names, noname=False):
+            super().__init__(name=None if noname else names[spec["name"]], geometry=spec["dim"])
             self._spec = spec
             self._attrs = []
             for i, s in enumerate(spec["slots"]):
@@ -108,6 +108,12 @@ def polydist_class(cuqi):
                     exec(src, env)
                     val = env["_f"]
                     style = s.get("style", "def")
+                    if s.get("ret") == "fview":
+                        # the callable returns a NON-contiguous view [r, 0] of an F-ordered work array instead of the number r
+                        env["_f0"] = env["_f"]
+                        exec("import numpy as _np\ndef _f(%s):\n    _w = _np.asfortranarray(_np.zeros((2, 3)))\n    _w[0, 1] = float(_f0(%s))\n    return _w[0, 1:3]\n" % (
+                            ", ".join(argn), ", ".join(argn)), env)
+                        val = env["_f"]
                     if style == "lambda":
                         val = eval("lambda %s: _f(%s)" % (", ".join(argn), ", ".join(argn)), env)
                     elif style == "partial":           # the user's own functools.partial over a function with one more argument
@@ -151,8 +157,13 @@ def rand_vec(rng, dim):
     if rng.random() < 0.08:
         return [0] * dim               # falsy-but-legitimate: a variable fixed to exactly zero
     if rng.random() < 0.3:
-        return [rng.randint(-18, 18) / 2 for _ in range(dim)]      # half-integers: a truncating dtype cast shows
-    return [rng.randint(-9, 9) for _ in range(dim)]
+        v = [rng.randint(-18, 18) / 2 for _ in range(dim)]         # half-integers: a truncating dtype cast shows
+    else:
+        v = [rng.randint(-9, 9) for _ in range(dim)]
+    if dim >= 2 and rng.random() < 0.2:
+        v = [a if a != 0 else 3 for a in v]
+        v[rng.randrange(dim)] = 0                                   # an exact zero INSIDE an otherwise non-zero vector (np.all vs np.any)
+    return v
 
 
 def mk_slot(rng, kind, parents):
@@ -161,7 +172,7 @@ def mk_slot(rng, kind, parents):
     if kind == "unset":
         return {"kind": "unset", "var": parents[0]}
     return {"kind": "fn", "args": list(parents), "a": [rng.choice([-3, -2, -1, 1, 2, 3]) for _ in parents], "b": rng.randint(-4, 4),
-            "style": rng.choice(["def", "lambda", "partial", "object"])}
+            "style": rng.choice(["def", "lambda", "partial", "object"]), "ret": rng.choice(["scalar", "scalar", "fview"])}
 
 
 def attrs_of(spec):
@@ -185,7 +196,7 @@ def mk_factor(rng, name, dim, slots):
             sl["attrvar"] = rng.choice(cand) if cand and rng.random() < 0.35 else None
             if sl["attrvar"] is not None:
                 taken.add(sl["attrvar"])
-    return {"name": name, "dim": dim, "slots": slots, "c": rng.randint(-9, 9),
+    return {"name": name, "dim": dim, "slots": slots, "c": rng.randint(-9, 9) if rng.random() < 0.85 else rng.choice([-1, 1]) * 10 ** 12,
             "m": [rng.choice([-3, -2, -1, 1, 2, 3]) for _ in slots], "q": rng.choice([-2, -1, 1, 2]), "r": rng.choice([-2, -1, 1, 2])}
 
 
@@ -437,10 +448,16 @@ class Vals(dict):
         self.pool, self.style = {}, {}
         for j, v in self.items():
             if isinstance(v, float):
-                self.pool[j] = v
-                self.style[j] = "scalar"
+                # integer-valued hyper-parameters / data are also handed over with INTEGER type (rate = 2, not 2.0)
+                asint = real and float(v).is_integer() and rng.random() < 0.6
+                self.pool[j] = int(v) if asint else v
+                self.style[j] = "pyint" if asint else "scalar"
                 continue
-            st = forced[str(j)] if forced and str(j) in forced else rng.choice(("float", "strided") if real else self.STYLES)
+            if real and all(float(a).is_integer() for a in v) and rng.random() < 0.6:
+                self.pool[j], self.style[j] = np.array([int(a) for a in v]), "int"
+                continue
+            styles = ("float", "strided") if real else (self.STYLES + (("pyscalar", "zerod") if len(v) == 1 else ()))
+            st = forced[str(j)] if forced and str(j) in forced else rng.choice(styles)
             if st == "int":
                 a = np.array(v)
             elif st == "float":
@@ -449,6 +466,10 @@ class Vals(dict):
                 a = np.array([x for y in v for x in (y, 99)], dtype=float)[::2]
             elif st == "list":
                 a = list(v)
+            elif st == "pyscalar":
+                a = v[0]                      # a one-dimensional variable given as a plain Python number
+            elif st == "zerod":
+                a = np.array(v[0])            # ... or as a 0-d array
             else:
                 a = np.asfortranarray(np.array([v, v], dtype=float).T)[:, 0]      # a column view of an F-ordered 2-d array
             self.pool[j], self.style[j] = a, st
@@ -459,7 +480,7 @@ class Vals(dict):
         out = []
         for j, a in getattr(self, "pool", {}).items():
             ref = self[j]
-            same = (a == ref) if isinstance(a, float) else (list(np.asarray(a).ravel()) == list(np.asarray(ref).ravel()))
+            same = (float(a) == ref) if isinstance(ref, float) else (list(np.asarray(a).ravel()) == list(np.asarray(ref).ravel()))
             if not same:
                 out.append(j)
         return out
@@ -478,8 +499,9 @@ def do_call(f, names, vals, call):
         if list(buf) != [float(a) for a in ref]:
             raise RuntimeError("the stacked input vector was modified by logd")
         return r
+    pk = call.get("poked", ())
     args = [arg_of(vals, j) for j in call["args"]]
-    kw = {name_of(names, k): arg_of(vals, j) for k, j in call["kw"]}
+    kw = {name_of(names, k): arg_of(vals, k if k in pk else j) for k, j in call["kw"]}
     return f(*args, **kw)
 
 
@@ -1015,11 +1037,58 @@ class Prog:
          ("view", which, src, expect_ok) problem.likelihood / problem.prior
        and per object: params (ordered), flavour, expected value of a complete evaluation"""
 
-    def __init__(self, rng, fs, fvalue, vals=None):
+    def __init__(self, rng, fs, fvalue, vals=None, valfn=None):
         self.rng, self.fs, self.fvalue, self.vals, self.alts = rng, fs, fvalue, vals, {}
+        self.real = valfn is not None
+        self.valfn = valfn or (lambda f, asg: factor_value_py(f, asg))
+        self.poked = {}          # var -> value id currently written INTO the variable's argument object
         self.total = sum(fvalue.values())
         self.ops = []
         self.objs = [{"book": Book(fs, []), "flav": "joint", "expect": self.total, "reduced": False, "alive": True}]
+
+    def total_with(self, ov):
+        """the joint log-density when the variables in ov = {var: value id} take other values"""
+        tot = 0
+        for f in self.fs:
+            rel = {k: j for k, j in ov.items() if k == f["name"] or k in deps(f)}
+            tot = tot + (self.alt_value(f, rel) if rel else self.fvalue[f["name"]])
+        return tot
+
+    def new_alt(self, v):
+        """a second value for variable v (same container type and integrality): returns its value id"""
+        i = ALT + 2 + len([k for k in self.vals if isinstance(k, int) and k >= ALT + 2])
+        base = self.vals[v]
+        if self.real:        # stay inside the supports (Beta, Uniform, positive scales): scale by 17/16
+            self.vals[i] = base * 1.0625 if isinstance(base, float) else [a * 1.0625 for a in base]
+        else:
+            self.vals[i] = [a + 1 for a in base]
+        return i
+
+    def eval_bad(self, i):
+        """a malformed evaluation of object i in whatever life-cycle state it is in: must be refused"""
+        o = self.objs[i]
+        if not o["alive"]:
+            return
+        ps = self.params(i)
+        r = self.rng
+        if o["flav"] == "stacked":
+            form = r.choice(["none", "two", "unknown"])
+            call = {"none": {"args": [], "kw": []}, "two": {"args": [ps[0], ps[0]] if ps else [0, 0], "kw": []},
+                    "unknown": {"args": [], "kw": [[UNKNOWN, ps[0] if ps else 0]]}}[form]
+            if form == "none" and not ps:
+                return
+        else:
+            forms = ["unknown", "toomany"] + (["missing", "double"] if ps else [])
+            form = r.choice(forms)
+            kwv = [[v, self.poked.get(v, v)] for v in ps]
+            any_id = ps[0] if ps else 0
+            call = {"unknown": {"args": [], "kw": kwv + [[UNKNOWN, any_id]]},
+                    "toomany": {"args": list(ps) + [any_id], "kw": []},
+                    "missing": {"args": [], "kw": kwv[1:]},
+                    "double": {"args": ps[:1], "kw": kwv}}[form]
+            if form == "missing" and len(ps) == 1 and o["flav"] == "E":
+                return
+        self.ops.append(("eval", i, call, "ERR"))
 
     def params(self, i):
         o = self.objs[i]
@@ -1058,7 +1127,7 @@ class Prog:
         return idx
 
     def alt_value(self, f, ov):
-        v = factor_value_py(f, {**self.vals, **{k: self.vals[j] for k, j in ov.items()}})
+        v = self.valfn(f, {**self.vals, **{k: self.vals[j] for k, j in ov.items()}})
         self.alts.setdefault(f["name"], [])
         if (ov, v) not in self.alts[f["name"]]:
             self.alts[f["name"]].append((dict(ov), v))
@@ -1094,23 +1163,49 @@ class Prog:
         if not o["alive"]:
             return
         ps = self.params(i)
+        pk = {v: j for v, j in self.poked.items() if v in ps}
         if o["flav"] == "stacked":
+            if pk:
+                return
             call = {"args": [], "kw": [], "stack": list(ps), "stackkw": self.rng.random() < 0.35}
+        elif pk:
+            # the SAME argument objects as before, some overwritten in place by the caller: encoded with the new values
+            kwv = list(ps); self.rng.shuffle(kwv)
+            call = {"args": [], "kw": [[v, pk.get(v, v)] for v in kwv], "poked": sorted(pk)}
         else:
             call = full_call(self.rng, ps, positional=self.rng.random() < 0.3)
-        self.ops.append(("eval", i, call, o["expect"]))
+        exp = o["expect"]
+        if pk and o["flav"] in ("joint", "stacked"):
+            exp = self.total_with({**o.get("ov", {}), **pk})
+        elif pk:
+            return
+        self.ops.append(("eval", i, call, exp))
 
     def eval_all(self):
-        for i in range(len(self.objs)):
-            self.eval_one(i)
+        """after every op: the start object, the newest object and a random 60% of the others are re-evaluated"""
+        n = len(self.objs)
+        for i in range(n):
+            if i in (0, n - 1) or self.poked or self.rng.random() < 0.6:
+                self.eval_one(i)
+            if self.rng.random() < 0.2:
+                self.eval_bad(i)
+
+    def poke(self, v, j):
+        """the caller overwrites the argument object of variable v IN PLACE with the value vals[j] (j = v restores it)"""
+        self.ops.append(("poke", v, j))
+        if j == v:
+            self.poked.pop(v, None)
+        else:
+            self.poked[v] = j
 
     def new(self, **o):
         o.setdefault("alive", True)
         self.objs.append(o)
         return len(self.objs) - 1
 
-    def cond(self, src, sub, positional=False):
+    def cond(self, src, sub, positional=False, use=None):
         o = self.objs[src]
+        use = use or {}
         sub = [v for v in sub if v in self.params(src)]
         b = Book(self.fs, [])
         b.fixed = set(o["book"].fixed) | set(sub)
@@ -1127,12 +1222,13 @@ class Prog:
         elif positional and self.params(src)[:len(sub)] == sorted(sub, key=self.params(src).index) and o["flav"] != "E":
             call = {"args": self.params(src)[:len(sub)], "kw": []}
         else:
-            call = {"args": [], "kw": [[v, v] for v in kwv]}
+            call = {"args": [], "kw": [[v, use.get(v, v)] for v in kwv]}
         self.ops.append(("cond", src, call, tag))
         flav = "joint"
         if o["flav"] == "stacked" and (len(b.params()) != 1):
             flav = "stacked"          # copy(self) keeps the class unless the reduction builds another object
-        idx = self.new(book=b, flav=flav, expect=self.total, reduced=True, alive=alive)
+        ov = {**o.get("ov", {}), **{v: j for v, j in use.items() if v in sub}}
+        idx = self.new(book=b, flav=flav, expect=self.total_with(ov) if ov else self.total, reduced=True, alive=alive, ov=ov)
         self.eval_all()
         return idx
 
@@ -1153,7 +1249,7 @@ class Prog:
         """JointDistribution(obj): a new joint assembled from a reduced single Distribution (which carries folded constants)"""
         o = self.objs[src]
         self.ops.append(("join", [src]))
-        idx = self.new(book=o["book"], flav="joint", expect=self.total, reduced=False)
+        idx = self.new(book=o["book"], flav="joint", expect=o["expect"], reduced=False, ov=o.get("ov", {}))
         self.eval_all()
         return idx
 
@@ -1176,20 +1272,25 @@ class Prog:
     def stack(self, src):
         o = self.objs[src]
         self.ops.append(("stack", src))
-        idx = self.new(book=o["book"], flav="stacked", expect=self.total, reduced=False)
+        idx = self.new(book=o["book"], flav="stacked", expect=o["expect"], reduced=False, ov=o.get("ov", {}))
         self.eval_all()
         return idx
 
 
-def history_program(rng, fs, n, kind, order, fvalue, with_stack=True):
+def history_program(rng, fs, n, kind, order, fvalue, with_stack=True, vals=None, valfn=None):
     S = subset_for_kind(rng, fs, n, kind)
     if S is None:
         return None
     S2 = rng.sample(range(n), rng.randint(1, max(1, n - 1)))
     if sorted(S2) == sorted(S) and n > 1:
         S2 = [v for v in range(n) if v not in S][:1] or S2
-    P = Prog(rng, fs, fvalue)
+    P = Prog(rng, fs, fvalue, vals, valfn)
     P.eval_all()
+    if vals is not None:
+        # two children of the same parent fixed to DIFFERENT values of one variable, both alive, the first evaluated after the
+        # second was created (shallow copies must not share what the value went into)
+        v = rng.choice(S)
+        P.cond(0, S, use={v: P.new_alt(v)})
     seq = [S, S, S2] if order == 0 else [S2, S, S]
     kids = [P.cond(0, sub) for sub in seq]
     # grand-children: a Posterior on its own parameter (by keyword, and positionally); another child on part of its rest
@@ -1215,6 +1316,7 @@ def history_program(rng, fs, n, kind, order, fvalue, with_stack=True):
             break
     if not with_stack:
         P.cond(0, S)
+        overwrite_in_place(P, rng, n)
         return P
     # the stacked view of the parent and of a child that is still a joint; conditioning the stacked objects
     s0 = P.stack(0)
@@ -1227,7 +1329,28 @@ def history_program(rng, fs, n, kind, order, fvalue, with_stack=True):
             break
     # the parent once more, the identical conditioning a third time
     P.cond(0, S)
+    overwrite_in_place(P, rng, n)
     return P
+
+
+def overwrite_in_place(P, rng, n):
+    """aliasing over time: the caller overwrites IN PLACE the argument object of a variable that was only ever passed to
+    evaluations, evaluates again with the same object, restores it and evaluates once more"""
+    if P.vals is None:
+        return
+    used = set()
+    for op in P.ops:
+        if op[0] in ("cond", "bpinit", "setdata"):
+            kws = op[2]["kw"] if op[0] == "cond" else op[2]
+            used |= set(k for k, _ in kws) | set(op[2]["args"] if op[0] == "cond" else [])
+    free = [v for v in range(n) if v not in used]
+    if not free:
+        return
+    v = rng.choice(free)
+    P.poke(v, P.new_alt(v))
+    P.eval_all()
+    P.poke(v, v)
+    P.eval_all()
 
 
 def user_posterior_program(rng, fs, n, fvalue, vals):
@@ -1336,6 +1459,16 @@ def run_history(cuqi, start, names, vals, ops, facs=None):
     objs, res, bps = [start], [], {}
     for op in ops:
         kind = op[0]
+        if kind == "poke":
+            a = vals.pool[op[1]]
+            if isinstance(a, (int, float, Fraction)) and not isinstance(a, np.ndarray):
+                vals.pool[op[1]] = vals[op[2]] if isinstance(vals[op[2]], float) else vals[op[2]][0]      # immutable: nothing to alias
+            elif np.ndim(a) == 0:
+                a[...] = vals[op[2]][0]
+            else:
+                a[:] = vals[op[2]]
+            res.append("poke")
+            continue
         if kind == "eval":
             try:
                 res.append(num(do_call(objs[op[1]].logd, names, vals, op[2])))
@@ -1394,9 +1527,16 @@ def history_oracle(ops, res, total, rel=0):
     newest = 0
     for op, r in zip(ops, res):
         kind = op[0]
+        if kind == "poke":
+            continue
         if kind == "eval":
             exp = op[3]
             if exp is None:
+                continue
+            if exp == "ERR":
+                if r is not None:
+                    return ("malformed evaluation %s of object %d (after %d later object(s)) returned %s instead of raising" % (
+                        {k: v for k, v in op[2].items() if k in ("args", "kw")}, op[1], newest - op[1], float(r)), "not-refused|history")
                 continue
             if r is None or abs(r - exp) > rel * (1 + abs(exp)):
                 older = op[1] < newest
@@ -1435,6 +1575,8 @@ def history_oracle(ops, res, total, rel=0):
 def chop(vals, op, r, pre="q", cst=None):
     cst = cst or cstage
     kind = op[0]
+    if kind == "poke":
+        return None
     if kind == "eval":
         return "(%sEval %s %s %s)" % (pre, cnat(op[1]), ccall(vals, op[2]), copt(r, cq) if pre == "q" else r)
     if kind in ("cond", "bpinit"):
@@ -1464,7 +1606,7 @@ def history_case(ctx, cuqi, strict, shape, kind, order, rng, variant="history"):
     vals = {f["name"]: rand_vec(rng, f["dim"]) for f in fs}
     fvalue = {f["name"]: factor_value_py(f, vals) for f in fs}
     if variant == "history":
-        P = history_program(rng, fs, n, kind, order, fvalue)
+        P = history_program(rng, fs, n, kind, order, fvalue, vals=vals)
     elif variant == "user-posterior":
         P = user_posterior_program(rng, fs, n, fvalue, vals)
     else:
@@ -1483,7 +1625,7 @@ def history_case(ctx, cuqi, strict, shape, kind, order, rng, variant="history"):
             "values": {str(k): v for k, v in vals.items()}, "argstyle": {str(k): v for k, v in vals.style.items()},
             "ops": [list(op) for op in ops[:len(res)]]}
     expr = "check_history %s 0%%Q %s %s" % (flags(), clist([cdens(f, vals, fvalue[f["name"]], False, alts=P.alts.get(f["name"], ())) for f in fs]),
-                                           clist([chop(vals, op, r) for op, r in zip(ops, res)]))
+                                           clist([x for x in (chop(vals, op, r) for op, r in zip(ops, res)) if x is not None]))
     return Case(expr=expr, meta=meta, cell="poly/%s/%s/%s/order%d" % (variant, shape, kind, order), kind="EXACT", impl_fail=fail, signature=sig)
 
 
@@ -1568,6 +1710,69 @@ def dens_history_case(ctx, cuqi, rng, nargs):
     expr = "check_history_dens %s 0%%Q %s %s" % (flags(), cdens(spec, vals, value, False),
                                                 clist([chop(vals, op, r) for op, r in zip(ops, res)]))
     return Case(expr=expr, meta=meta, cell="poly/dens-history/%darg" % nargs, kind="EXACT", impl_fail=fail, signature=sig)
+
+
+def default_paths_case(ctx, cuqi, shape, rng, which):
+    """oracle-level cells for two paths of the anchored code the model does not describe:
+       'inferred-names'  the shipped DEFAULT name=None: names inferred from the Python variables holding the distributions;
+       'posterior-factor' a Posterior (a Distribution SUBCLASS) used as a factor of a new joint with independent factors"""
+    PD = polydist_class(cuqi)
+    fs, n = graph(rng, shape)
+    names = rng.sample(VARNAMES, n)
+    vals = {f["name"]: rand_vec(rng, f["dim"]) for f in fs}
+    total = sum(factor_value_py(f, vals) for f in fs)
+    kw = lambda ids: {names[v]: np.array(vals[v]) for v in ids}
+    fail, got = None, []
+    try:
+        if which == "inferred-names":
+            src = "def _build(PD, fs, names, JD):\n" + "".join("    %s = PD(fs[%d], names, noname=True)\n" % (names[f["name"]], i) for i, f in enumerate(fs))
+            src += "    return JD(%s)\n" % ", ".join(names[f["name"]] for f in fs)
+            env = {}
+            exec(src, env)
+            J = env["_build"](PD, fs, names, cuqi.distribution.JointDistribution)
+            if J.get_parameter_names() != [names[f["name"]] for f in fs]:
+                fail = "inferred parameter names %s, the variables are %s" % (J.get_parameter_names(), [names[f["name"]] for f in fs])
+            order = list(range(n)); rng.shuffle(order)
+            o, fixed = J, []
+            got.append(("joint", num(J.logd(**kw(range(n))))))
+            for v in order[:-1]:
+                from cuqi.distribution import Posterior
+                o = o(**kw([v])); fixed.append(v)
+                got.append(("after fixing %s" % [names[a] for a in fixed], num(o.logd(**kw([a for a in range(n) if a not in fixed])))))
+            got.append(("parent re-evaluated", num(J.logd(**kw(range(n))))))
+        else:
+            pairs = [(fy, x) for fy in fs for x in deps(fy) if deps(fy) == {x} and not deps([f for f in fs if f["name"] == x][0])]
+            if not pairs:
+                return None
+            fy, x = rng.choice(pairs)
+            fx = [f for f in fs if f["name"] == x][0]
+            facs = {f["name"]: PD(f, names) for f in fs}
+            post = cuqi.distribution.JointDistribution(facs[fy["name"]], facs[x])(**kw([fy["name"]]))
+            others = [f for f in fs if f is not fy and f is not fx and not (deps(f) & {fy["name"]})]
+            others = [f for f in others if not (deps(f) - {x} - set(g["name"] for g in others))]
+            sub = [fy, fx] + others
+            tot = sum(factor_value_py(f, vals) for f in sub)
+            J2 = cuqi.distribution.JointDistribution(post, *[facs[f["name"]] for f in others])
+            free = [x] + [f["name"] for f in others]
+            if sorted(J2.get_parameter_names()) != sorted(names[v] for v in free):
+                fail = "parameters of the joint with a Posterior factor: %s" % J2.get_parameter_names()
+            got.append(("joint with a Posterior factor", num(J2.logd(**kw(free)))))
+            o, fixed = J2, []
+            order = list(free); rng.shuffle(order)
+            for v in order[:-1]:
+                o = o(**kw([v])); fixed.append(v)
+                got.append(("after fixing %s" % [names[a] for a in fixed], num(o.logd(**kw([a for a in free if a not in fixed])))))
+            got.append(("the Posterior itself afterwards", num(post.logd(**kw([x]))) + sum(factor_value_py(f, vals) for f in others)))
+            got.append(("parent re-evaluated", num(J2.logd(**kw(free)))))
+            total = tot
+        for what, v in got:
+            if not fail and v != total:
+                fail = "%s gives %s, expected %s" % (what, float(v), total)
+    except Exception as e:
+        fail = "raised %r" % e
+    return Case(expr="true", meta={"family": "poly", "variant": which, "shape": shape, "names": names, "factors": fs,
+                                   "values": {str(a): b for a, b in vals.items()}},
+                cell="poly/%s/%s" % (which, shape), kind="DECISION", impl_fail=fail, signature=which if fail else "")
 
 
 def reassign_case(ctx, cuqi, shape, rng):
@@ -1696,6 +1901,11 @@ def run(ctx):
             c = guarded(reassign_case, "reassign", ctx, cuqi, shape, rng)
             if c is not None:
                 cases.append(c)
+        for which in ("inferred-names", "posterior-factor"):
+            for _ in range(ctx.n(1, 4)):
+                c = guarded(default_paths_case, which, ctx, cuqi, shape, rng, which)
+                if c is not None:
+                    cases.append(c)
     for nargs in (1, 2, 3, 4):
         for _ in range(ctx.n(6, 40)):
             cases.append(guarded(dens_history_case, "dens-history", ctx, cuqi, rng, nargs))
@@ -1776,7 +1986,9 @@ def real_models(cuqi, rng):
     s = cd.Gamma(2, 1, name="s")
     x2 = cd.GMRF(np.zeros(n), lambda s: s, name="x")
     y2 = cd.Gaussian(Amod, 0.25, name="y")
-    out.append(("gauss-linearmodel-gmrf", [y2, x2, s], {"s": pos(), "x": rv(n), "y": rv(m)},
+    iv = lambda k: np.array([float(rng.randint(-3, 3)) for _ in range(k)])
+    integer_valued = rng.random() < 0.5
+    out.append(("gauss-linearmodel-gmrf", [y2, x2, s], {"s": float(rng.randint(1, 4)), "x": iv(n), "y": iv(m)} if integer_valued else {"s": pos(), "x": rv(n), "y": rv(m)},
                 {"s": lambda v: cd.Gamma(2, 1), "x": lambda v: cd.GMRF(np.zeros(n), v["s"]),
                  "y": lambda v: cd.Gaussian(np.asarray(Amod(v["x"])), 0.25)}))
     # 3. non-linear model, LMRF prior with scale hyper-parameter, two likelihoods
@@ -1873,10 +2085,14 @@ def real_family_cases(ctx, cuqi, strict):
                 stack_ok = True
             except Exception:
                 stack_ok = False
+            def valfn(f, a, names=names, concrete=concrete):
+                """value of factor f at an assignment {id: value}: a fresh unconditional distribution, logpdf only"""
+                av = {names[k]: toarg(v) for k, v in a.items() if isinstance(k, int) and k < len(names)}
+                return float(np.asarray(concrete[names[f["name"]]](av).logpdf(av[names[f["name"]]])).ravel()[0])
             for kind in HKINDS:
-                for order in (0, 1, 2):
+                for order in ((0, 1, 2) if ctx.thorough else ((rep + len(label)) % 2, 2)):
                     # order 2: the BayesianProblem program (constructor, set_data, views) on the real factors
-                    P = history_program(rng, fs, n, kind, order, fvalue, with_stack=stack_ok) if order < 2 else problem_program(rng, fs, n, kind, fvalue)
+                    P = history_program(rng, fs, n, kind, order, fvalue, with_stack=stack_ok, vals=vals, valfn=valfn) if order < 2 else problem_program(rng, fs, n, kind, fvalue)
                     if P is None:
                         continue
                     start = cuqi.distribution.JointDistribution(*dists)
@@ -1889,16 +2105,19 @@ def real_family_cases(ctx, cuqi, strict):
                         sig = sig + "|real|" + label
 
                     def cfac(f):
-                        key = [vals[j] for j in cond_vars_py(f["slots"])] + [vals[f["name"]]]
-                        return "(fD (fmka %s %s %s %s [(%s, %s)]))" % (cvar(f["name"]), cnat(f["dim"]), clist([cslot(sl) for sl in f["slots"]]), cvl(f["attrs"]),
-                                                                  clist([cqval(k) for k in key]), cfloat(fvalue[f["name"]]))
+                        ids = cond_vars_py(f["slots"]) + [f["name"]]
+                        entries = [([vals[j] for j in ids], fvalue[f["name"]])] + [([vals[ov.get(j, j)] for j in ids], v_) for ov, v_ in P.alts.get(f["name"], ())]
+                        return "(fD (fmka %s %s %s %s %s))" % (cvar(f["name"]), cnat(f["dim"]), clist([cslot(sl) for sl in f["slots"]]), cvl(f["attrs"]),
+                                                               clist(["(%s, %s)" % (clist([cqval(k) for k in key]), cfloat(v_)) for key, v_ in entries]))
 
                     def fop(op, r):
+                        if op[0] == "poke":
+                            return None
                         if op[0] == "eval":
                             return chop(vals, op, None if r is None else "(Some %s)" % cfloat(r), pre="f") if r is not None else \
                                 "(fEval %s %s None)" % (cnat(op[1]), ccall(vals, op[2]))
                         return chop(vals, op, r, pre="f", cst=cstage_f)
-                    expr = "check_history_f %s %s %s" % (flags(), clist([cfac(f) for f in fs]), clist([fop(op, r) for op, r in zip(P.ops, res)]))
+                    expr = "check_history_f %s %s %s" % (flags(), clist([cfac(f) for f in fs]), clist([x for x in (fop(op, r) for op, r in zip(P.ops, res)) if x is not None]))
                     meta = {"family": "real", "label": label, "branch": kind, "order": order,
                             "values": {k: np.asarray(v).tolist() for k, v in values.items()}, "ops": [list(op) for op in P.ops[:len(res)]]}
                     cases.append(Case(expr=expr, meta=meta, cell="real/%s/%s/order%d" % (label, kind, order), kind="EXACT", impl_fail=fail, signature=sig))
@@ -1992,12 +2211,15 @@ def replay(ctx, meta):
         res = run_history(cuqi, start, names, vals, ops, facs)
         nobj = 0
         for op, r in zip(ops, res):
+            if op[0] == "poke":
+                print("  the caller overwrites the argument object of %s in place with %s" % (names[op[1]], vals[op[2]]))
+                continue
             if op[0] == "eval":
                 c = op[2]
                 shown = ("stacked vector of %s" % [names[j] for j in c["stack"]]) if "stack" in c else [names[j] for j in c["args"]] + ["%s=" % name_of(names, k) for k, _ in c["kw"]]
                 print("  object %d .logd(%s) -> implementation %s ; property expects %s%s" % (
-                    op[1], shown, "RAISED" if r is None else r, "an error / not judged" if op[3] is None else op[3],
-                    "" if (op[3] is None or r == op[3]) else "   <-- DIFFERS"))
+                    op[1], shown, "RAISED" if r is None else r, "not judged" if op[3] is None else ("an ERROR" if op[3] == "ERR" else op[3]),
+                    "" if (op[3] is None or (op[3] == "ERR" and r is None) or r == op[3]) else "   <-- DIFFERS"))
                 continue
             nobj += 0 if op[0] in ("setlik", "setprior") else 1
             desc = {"cond": lambda: "object %d conditioned positional=%s keywords=%s" % (op[1], [names[j] for j in op[2]["args"]], [name_of(names, k) for k, _ in op[2]["kw"]]),
